@@ -322,7 +322,8 @@ def brotli_zeros(mlen, blocks):
     `mlen` zero bytes: one literal 0x00, then a copy of mlen-1 bytes from
     distance 1.  All three prefix codes have a single symbol (0 bits per
     symbol), so a block costs about 12 bytes."""
-    assert 2119 <= mlen <= 65536
+    assert 2119 <= mlen <= (1 << 24)
+    big = mlen > 65536
     acc = 0
     n = 0
 
@@ -333,8 +334,12 @@ def brotli_zeros(mlen, blocks):
     put(0, 1)                    # WBITS 16
     for _ in range(blocks):
         put(0, 1)                # ISLAST 0
-        put(0, 2)                # MNIBBLES 4
-        put(mlen - 1, 16)
+        if big:
+            put(2, 2)            # MNIBBLES 6
+            put(mlen - 1, 24)
+        else:
+            put(0, 2)            # MNIBBLES 4
+            put(mlen - 1, 16)
         put(0, 1)                # compressed
         put(0, 3)                # one block type for L, I, D
         put(0, 2)                # NPOSTFIX
@@ -376,6 +381,8 @@ def cert_ops(msg, rng):
         # over the declared size, and many blocks each within it
         ops.append(("zbomb_brotli_one_block", bbomb(3000, 65536, 1)))
         ops.append(("zbomb_brotli_many_blocks", bbomb(50000, 50000, 900)))
+        # a single meta-block of 16 MB behind a small declared length
+        ops.append(("zbomb_brotli_huge_block", bbomb(3000, (1 << 24) - 8, 1)))
         body = msg[4:]
         ops.append(("comp_alg_unknown",
                     wire.hs_msg(25, b"\x00\x09" + body[2:])))
